@@ -53,7 +53,7 @@ func jsonEq(a, b interface{}) bool {
 
 func c11(r *hx.Run) {
 	fx.Quiet()
-	r.Rule = "full product of builder inputs: 5 key types (EdDSA, ES256, ES384, ES512, ES256K) x 2 hash algorithms x {opaque document, patch list} x anchor origin {nil, string, object} x window {none, from only, from+until} x nonce {absent, 16 bytes} x kid {absent, present}; the four client builders with the library's signers and JWK conversion produce create/update/recover/deactivate requests; each must be accepted by the real parser, parse back to the supplied suffix, commitments, patches, reveal value, key and window, and - anchored inside the window on a DID whose commitment matches - resolve on the real processor to the state computed by ref/doc + the supplied commitments. Non-trivial: every configuration (all reach resolution)."
+	r.Rule = "full product of builder inputs: 5 key types (EdDSA, ES256, ES384, ES512, ES256K) x 2 hash algorithms x {opaque document, patch list} x anchor origin {nil, string, object} x window {none, from only, from+until} x nonce {absent, 16 bytes} x kid {absent, present}, plus 16 configurations whose signing keys have a coordinate with a leading zero byte; the four client builders with the library's signers and JWK conversion produce create/update/recover/deactivate requests; each must be accepted by the real parser, parse back to the supplied suffix, commitments, patches, reveal value, key and window, and - anchored inside the window on a DID whose commitment matches - resolve on the real processor to the state computed by ref/doc + the supplied commitments. Non-trivial: every configuration (all reach resolution)."
 	const T = 1000
 	type cfg struct {
 		kt     string
@@ -63,6 +63,7 @@ func c11(r *hx.Run) {
 		window int
 		nonce  bool
 		kid    bool
+		short  string
 	}
 	var cfgs []cfg
 	for _, kt := range fx.KeyTypes {
@@ -72,7 +73,7 @@ func c11(r *hx.Run) {
 					for window := 0; window < 3; window++ {
 						for _, nonce := range []bool{false, true} {
 							for _, kid := range []bool{false, true} {
-								cfgs = append(cfgs, cfg{kt, code, opaque, origin, window, nonce, kid})
+								cfgs = append(cfgs, cfg{kt, code, opaque, origin, window, nonce, kid, ""})
 							}
 						}
 					}
@@ -80,10 +81,15 @@ func c11(r *hx.Run) {
 			}
 		}
 	}
+	for _, kt := range []string{fx.P256, fx.P384, fx.P521, fx.Secp256k1} {
+		for _, which := range []string{"x", "y"} {
+			cfgs = append(cfgs, cfg{kt, fx.SHA256, false, 1, 2, false, false, which}, cfg{kt, fx.SHA512, true, 0, 0, true, true, which})
+		}
+	}
 	origins := []interface{}{nil, "https://origin.example", map[string]interface{}{"a": "b", "n": []interface{}{1.0}}}
 	hx.ParallelFor(len(cfgs), func(i int) {
 		c := cfgs[i]
-		caseID := fmt.Sprintf("%s|%d|opaque=%v|o%d|w%d|nonce=%v|kid=%v", c.kt, c.code, c.opaque, c.origin, c.window, c.nonce, c.kid)
+		caseID := fmt.Sprintf("%s|%d|opaque=%v|o%d|w%d|nonce=%v|kid=%v|short=%s", c.kt, c.code, c.opaque, c.origin, c.window, c.nonce, c.kid, c.short)
 		if !r.Want(caseID) {
 			return
 		}
@@ -115,6 +121,12 @@ func c11(r *hx.Run) {
 		commits := map[string]string{}
 		for _, n := range []string{"r0", "r1", "u0", "u1", "u2"} {
 			k := fx.NewKey(c.kt, "c11/"+n)
+			if c.short != "" && n == "u0" {
+				k = fx.ShortCoordKeyN(c.kt, c.short, 0) // signing keys whose coordinate has a leading zero byte
+			}
+			if c.short != "" && n == "r0" {
+				k = fx.ShortCoordKeyN(c.kt, c.short, 1)
+			}
 			keys[n] = k
 			j, err := libJWK(k, nonce)
 			if err != nil {
